@@ -50,6 +50,8 @@ def run(ctx, rep):
         (BLOCK, "iterations", "required", R),
         (BLOCK, "statements", "required", "no gate is lost or duplicated"),
         (BLOCK, "parallel", "read", "the pass is responsible for the block kind and nesting (READ only: it decides between chunking and unrolling)"),
+        (LOOP, "iterations", "required", "loop counts are carried over"),
+        (LOOP, "statements", "required", "no gate is lost or duplicated"),
         (CIRCUIT, "constants", "required", R),
         (CIRCUIT, "registers", "required", R),
         (CIRCUIT, "macros", "required", R),
@@ -322,3 +324,17 @@ def run(ctx, rep):
             rep.ok("C19.5", cons, "kept whole iff parallel or subcircuit", bh.loc())
     if n5 == 0:
         rep.undecided("C19.5", cls_construct(ix, vis, "unroller"), "no generator-style block handler among the helper visitors")
+
+    # ------------------------------------------------------------ C19.6
+    rep.rule("C19.6", "the normaliser handles every node that contains statements: loop bodies are normalised (and checked for loops inside parallel blocks) like any other block", floor=2)
+    from .common import position_visited
+    for k, member in ((BLOCK, "statements"), (LOOP, "statements"), ("jaqalpaq.core.circuit.Circuit", "body")):
+        kname = ix.classes[k].name
+        cons = f"{cls_construct(ix, vis)}:{kname}.{member}:visited"
+        h = tr.has_handler(vis, k)
+        if h is None:
+            rep.violation("C19.6", cons, f"BlockNormalizer has no handler for {kname}: it falls to visit_default and is returned untouched, so `loop 2 {{ <a|{{b;c}}> }}` is not normalised and `loop 2 {{ <{{loop 3 {{a}}}} | b> }}` is not rejected", ix.classes[vis].loc(), witness="loop 2 { < foo q[0] | { bar q[1]; baz q[2] } > }")
+        elif position_visited(ctx, tr, k, member):
+            rep.ok("C19.6", cons, f"handled by {h.name}, which visits its {member}", h.loc())
+        else:
+            rep.violation("C19.6", cons, f"{h.name} does not visit {kname}.{member}", h.loc())
